@@ -163,6 +163,55 @@ def h_program_roundtrip(env, N, prog, config='plain', cls='CliffordCircuit', var
         env.goal('rank_restored', eq(obj.r, r))
 
 
+def h_build_history(env, N, prog, script, cls='CliffordCircuit', direction='forward'):
+    """the circuit is built by a script of public calls -- 'g' take the next gate, 'c' compile(), 'k' continue with
+    circ.copy(), 'o' compose with a fresh circuit holding the next gate, 'f' run forward on a scratch operand, 'b' run
+    backward on a scratch operand -- and then acts as the ordered product of all gates added (forward) or undoes it
+    (roundtrip): whatever was compiled, copied or run in between"""
+    M = Mods(env)
+    gates, tables, assumptions = make_gates(env, M, N, prog)
+    for a in assumptions:
+        env.assume(a, 'symbolic map gates are valid maps')
+    gs = env.bits('in', (1, 2 * N))
+    ps = env.phases('in_ps', (1,))
+    obj = M.pa.PauliList(gs.copy(), ps.copy())
+    it = iter(gates)
+
+    def go():
+        circ = getattr(M.ci, cls)(N)
+        for step in script:
+            if step == 'g':
+                circ.take(next(it))
+            elif step == 'c':
+                circ.compile()
+            elif step == 'k':
+                circ = circ.copy()
+            elif step == 'o':
+                other = getattr(M.ci, cls)(N)
+                other.take(next(it))
+                circ = circ.compose(other)
+            elif step in 'fb':
+                scratch = M.pa.PauliList(env.const([[1, 0] * N]), env.const([0]))
+                getattr(circ, 'forward' if step == 'f' else 'backward')(scratch)
+        if direction == 'forward':
+            circ.forward(obj)
+        else:
+            circ.forward(obj)
+            circ.backward(obj)
+        return circ
+    res = env.run(go)
+    env.goal('no_exception', b_not(res.raised))
+    if res.value is None:
+        return
+    used = script.count('g') + script.count('o')
+    g, p = gs[0], ps[0]
+    if direction == 'forward':
+        for t in tables[:used]:
+            g, p = ref_apply(t, g, p)
+    env.goal('string', arr_eq(obj.gs[0], g))
+    env.goal('phase', eq(obj.ps[0], p))
+
+
 def h_packing_all(env, N, n_ops, cls='CliffordCircuit', kmax=None, with_measure=False, pkg='pyclifford'):
     """the packing lemma on EVERY placement shape with n_ops operations (and, for Circuit, every position of one measurement)"""
     tp = []
